@@ -193,7 +193,8 @@ void h_insert (void)
 	unsigned nv = nondet_uint (); __CPROVER_assume (nv < 64);
 	BO_ASSUME (kn, vn, tag, probe, k);
 	SPLIT_ASSUME (k);
-	ppointer key = KEYARG (k, tag), value = (ppointer) (unsigned long) (nv * 8 + 4);
+	/* the new value is a fresh object or -- one shared marker value is a common use -- a pointer the tree already stores */
+	ppointer key = KEYARG (k, tag), value = (ppointer) (unsigned long) (nondet_bool () ? nv * 8 + 4 : nv * 8);
 	ppointer oldv = NULL, oldk = NULL, pv = NULL; _Bool existed = pre_member (k, &oldv, &oldk), pm = pre_member (probe, &pv, NULL);
 	unsigned n0 = pre_count ();
 	g_alloc_failed = 0;
